@@ -295,7 +295,7 @@ func (s *Server) Put(ns string, doc bson.M) {
 }
 
 // Get returns the first doc matching ueId/ratingGroup.
-func (s *Server) Get(ns, ueId string, rg int32) bson.M {
+func (s *Server) Get(ns, ueId string, rg int64) bson.M {
 	s.mu.Lock()
 	defer s.mu.Unlock()
 	for _, d := range s.colls[ns] {
@@ -311,7 +311,7 @@ func (s *Server) Get(ns, ueId string, rg int32) bson.M {
 }
 
 // SetField sets one field of the first document matching ueId/ratingGroup.
-func (s *Server) SetField(ns, ueId string, rg int32, key string, val interface{}) bool {
+func (s *Server) SetField(ns, ueId string, rg int64, key string, val interface{}) bool {
 	s.mu.Lock()
 	defer s.mu.Unlock()
 	for _, d := range s.colls[ns] {
